@@ -48,6 +48,7 @@ type Node struct {
 	LastSlabs    int
 	WasInlined   bool
 	Detached     bool
+	Former       *Node // container it was detached from (C11)
 	SeenInline   bool
 	SeenStandalone bool
 }
